@@ -419,7 +419,9 @@ def standard_replay(modname, pid, module, cfg, path, frozen, signature_of=None):
       module, cfg = suite.LIFE_SPEC
       regen = suite.regen_life
     else:
-      regen = lambda r: suite.regen(r, suite.ALL_KINDS)
+      if rcp.get('spec'):
+        module, cfg = rcp['spec']
+      regen = lambda r: suite.regen(r, tuple(r.get('kinds') or suite.ALL_KINDS))
   if frozen:
     tr = body['trace']
   elif regen is not None:
